@@ -146,9 +146,19 @@ def run(tier, replay=None):
             a_ = [np.full_like(x, th0[j] if j < len(th0) else 0.0) for j in range(4)]
             y = p1.tree_values(t0, x=x, a=a_)[0] + sig0 * nrng.standard_normal(len(x))
             sig = np.full(len(x), sig0)
+            # the same law under the ways a user runs the pipeline: into a directory that holds a completed earlier run on other data,
+            # on 12 ranks (two-digit rank numbers in the partial files), with the optimiser in log space
+            variant = ("rerun", "ranks12", "log_opt", "plain")[ti % 4]
+            if variant == "rerun":
+                np.savetxt(os.path.join(dd, "d.txt"), np.transpose([x, y[::-1] + 3.0, sig]))
+                pre = run_pipeline(s, name, n, dd, seed=evidence.seed() + 1)
+                if pre["status"] != "ok":
+                    raise RuntimeError("earlier pipeline run failed: %s" % pre["detail"][:300])
             np.savetxt(os.path.join(dd, "d.txt"), np.transpose([x, y, sig]))
-            res = run_pipeline(s, name, n, dd, seed=evidence.seed())
-            key0 = "%s:n%d:truth%s" % (name, n, "_".join(t0))
+            res = run_pipeline(s, name, n, dd, seed=evidence.seed(), P=12 if variant == "ranks12" else 1,
+                               opts={"fit": {"tmax": 300, "log_opt": True}, "fisher": {"tmax": 300}, "match": {"tmax": 300}} if variant == "log_opt" else None)
+            key0 = "%s:n%d:truth%s%s" % (name, n, "_".join(t0), "" if variant == "plain" else ":" + variant)
+            r.add("variants", evaluations=0, **{"%s_%s_n%d_%d" % (variant, name, n, ti): 1})
             if res["status"] != "ok":
                 r.violation("pipeline:" + key0, "pipeline did not complete: %s %s\n%s" % (res["status"], res["detail"][:300], coord.tail(res["out"][0], 10)), {"truth": t0})
                 continue
